@@ -86,3 +86,31 @@ package route
 //@   assigns t.accessRules
 //@   ensures nopanic
 //@   ensures restricted(t) && hasKey(t.accessRules, "allow:ip") && len(t.accessRules["allow:ip"]) == 0
+//@
+//@ // ---- C02: publication of routing tables --------------------------------------------------------------
+//@ func SetTable
+//@   props C02
+//@   assigns atomStored
+//@   sets activeTable = t == nil ? old(activeTable) : t
+//@   ensures nopanic
+//@   ensures t == nil ==> atomStored[addrOf(table)] == old(atomStored[addrOf(table)])
+//@   ensures t != nil ==> typeIs(atomStored[addrOf(table)], Table) && unbox(atomStored[addrOf(table)], Table) == t
+//@
+//@ func GetTable
+//@   props C02
+//@   requires typeIs(atomStored[addrOf(table)], Table)
+//@   assigns nothing
+//@   ensures nopanic
+//@   ensures result == unbox(atomStored[addrOf(table)], Table)
+//@
+//@ func NewTable
+//@   trusted
+//@   requires b != nil
+//@   assigns bufOf
+//@   sets builtFrom[t] = old(bufOf[b])
+//@   ensures err == nil ==> t != nil
+//@   ensures err != nil ==> t == nil
+//@
+//@ func ParseAliases
+//@   trusted
+//@   assigns nothing
